@@ -421,6 +421,7 @@ def setitem(run, drv):
 def extended(run, drv):
     import c03_write
     c03_write.setcoll(run, drv)
+    c03_write.setcoll_nested(run, drv)
     c03_write.extended(run, drv)
 
 
